@@ -625,6 +625,16 @@ def standard_run(ctx, spec):
             if rr is None or found_any:
                 break
         ctx.coverage["search_rounds_after_break"] = s + 1
+    if broke and not found_any and spec.get("deep_search"):
+        # property-specific search on the implementation alone (inputs too large for
+        # the model evaluation): each hit is a concrete input on which the property,
+        # as stated, fails on the real code
+        hits = spec["deep_search"](ctx) or []
+        ctx.coverage["deep_search_hits"] = len(hits)
+        for case, summary in hits[:5]:
+            obj = {"group": "deep", "case": case, "no_longer_checks": [{"kind": k, "detail": d} for k, d in broke]}
+            violation(ctx, obj, True, summary, "-deep")
+            found_any = True
     if broke and not found_any:
         what = "; ".join("%s: %s" % (k, d.split("\n")[0][:200]) for k, d in broke[:4])
         violation(ctx, {"no_longer_checks": [{"kind": k, "detail": d} for k, d in broke],
